@@ -369,6 +369,18 @@ def extract(repo):
     evs = [(m.start(), 'await') for m in re.finditer(r'\.await\b', body_nc)] + \
           [(m.start(), 'set') for m in re.finditer(r'\bself\.\w+\s*=[^=]', body_nc)]
     g['LOAD_INDEX_SEGMENTS'] = [k for _, k in sorted(evs)]
+    # `Inner::ensure_active_blob_exists`: the "is there an active blob" test comes first, the id is taken inside the branch
+    # that creates the blob, then the file is created, then the blob is installed (the order `Model/ConcCreate.lean` steps
+    # through; the seeded change C15-6 took the id before the test)
+    body = re.sub(r'//[^\n]*', '', fn_body(sc, 'ensure_active_blob_exists', 'in storage/core.rs'))
+    evs = []
+    for tag, pat in (('test', r'active_blob'), ('take-id', r'next_blob_name\s*\('), ('create', r'open_new\s*\('),
+                     ('install', r'active_blob\s*=\s*Some')):
+        m = re.search(pat, body)
+        if not m:
+            raise Fail(f'ensure_active_blob_exists: {tag} not found')
+        evs.append((m.start(), tag))
+    g['ENSURE_ACTIVE_ORDER'] = [t for _, t in sorted(evs)]
     # the writer's rotation test
     body = fn_body(sc, 'should_update_active_blob', 'in storage/core.rs')
     m1 = re.search(r'active_blob\.file_size\(\)\s*(>=|>|==|<=|<)\s*config_max_size', body)
